@@ -101,11 +101,14 @@ def main(argv=None):
     from vlib import harness as hmod
     hs, mod = hmod.load(prop)
     names = [n for n in hs if (a.only is None or n in a.only.split(','))]
+    if not names:
+        print('HARNESS-ERROR: no harness selected')
+        return EXIT_HARNESS_ERROR
     known = load_known(prop)
     open_known = [e for e in known if e.get('status') == 'open']
     open_sigs = sorted({e['signature'] for e in open_known})
 
-    need_c = any('c' in hs[n].impls for n in names) or any(
+    need_c = any('c' in (hs[n].tiers.get(tier) or hs[n].tiers.get('quick') or {}).get('impls', hs[n].impls) for n in names) or any(
         e.get('witness', {}).get('impl') == 'c' for e in open_known)
     scratch = None
     results = {}
@@ -121,7 +124,7 @@ def main(argv=None):
             t = h.tiers.get(tier) or h.tiers.get('quick')
             if h.kind == 'custom':
                 continue
-            for impl in h.impls:
+            for impl in t.get('impls', h.impls):
                 nparts = t.get('parts', NCPU)
                 for part in range(nparts):
                     tasks.append((n, impl, part, nparts, t))
